@@ -204,9 +204,41 @@ def c09(tier):
     return core.finish("C09", tier, "fault_enumeration", cov, viols, inc, t0, ASSUME_SAN, min_evals=1000)
 
 
+def c13(tier):
+    t0 = time.time()
+    cfgs = vec.SWAP2_QUICK + (vec.SWAP2_THOROUGH if tier == "thorough" else [])
+    cov, viols, inc = sets.run_engine("C13", tier, cfgs, 120, 120, extra_args=["--wide"] if tier == "thorough" else [], crash_owners=("C13",))
+    # swap2 interleaved with the other operations in random histories over mixed pools
+    c2, v2, i2 = vec.run("C13", tier, extra_args=["--swap2-heavy"], hist_quick=120, hist_thorough=1500)
+    cov = sets.merge_cov(cov, c2)
+    cov["rule"] = ("state-pair grid: for each configuration pair (flavour x N x size_type x allocator type on both sides) every ordered pair of operand states "
+                   "{natural/inline, heap with capacity==size, heap with spare room, heap then cleared, adopted small-capacity buffer} x sizes 0..6 (9 thorough) and "
+                   "250/255/300, both call directions; judged by exchanged model sequences, element ledger, allocator ledger, canaries, 'capacity() tells the "
+                   "truth' and a follow-up script on both operands; impossible exchanges must throw and leave both operands unchanged. Plus random histories "
+                   "with swap2 over-weighted. distinct cell = (configuration pair, direction, operand state classes, size relation)")
+    return core.finish("C13", tier, "exploration", cov, viols + v2, inc + i2, t0, ASSUME_SAN, min_evals=1000)
+
+
+def c15(tier):
+    t0 = time.time()
+    cfgs = sets.ALGO_QUICK + (sets.ALGO_THOROUGH if tier == "thorough" else [])
+    cov, viols, inc = sets.run_engine("C15", tier, cfgs, 17, 17, crash_owners=("C15",))
+    ob = cov.get("observed", {})
+    cov["rule"] = ("every algorithm of amc/memory.hpp x range length 0..5 x source iterator category {pointer, random access, bidirectional, forward, move_iterator} x "
+                   "value category {int, trivially copyable struct, declared-relocatable, non-relocatable, non-relocatable with throwing move} x every throw index "
+                   "(and no throw), built at -std=c++11/14/17/20 (thorough: also clang); judged against the standard's wording (values, returned iterators/pairs, "
+                   "input-iterator advance; relocate = move-construct then destroy the source), element ledger for clean-up on throw, guard slots around the "
+                   "destination, UBSan. Overlapping relocation (both directions) for the bitwise categories. distinct cell = (standard/compiler, algorithm, value "
+                   "category, iterator category, empty/non-empty)")
+    cov["fault_points_enumerated"] = ob.get("fault_points_found", 0)
+    cov["faulted_executions"] = ob.get("faulted_executions", 0)
+    cov["exhaustive"] = not viols and not inc
+    return core.finish("C15", tier, "fault_enumeration", cov, viols, inc, t0, ASSUME_SAN, min_evals=500)
+
+
 def all_quick_specs():
     cfgs = (list(vec.QUICK) + sets.FS_QUICK + sets.SS_SPACE_QUICK + sets.SS_HIST_QUICK + sets.HG_QUICK + sets.COST_QUICK + vec.GROWTH_QUICK +
-            vec.ALIAS_QUICK + vec.LIMITS_QUICK + vec.FAULT_QUICK + sets.SETFAULT_QUICK)
+            vec.ALIAS_QUICK + vec.LIMITS_QUICK + vec.FAULT_QUICK + sets.SETFAULT_QUICK + vec.SWAP2_QUICK + sets.ALGO_QUICK)
     return [c.spec() for c in cfgs]
 
 
@@ -222,4 +254,4 @@ def setup():
 
 EXTRA_SETUP = []
 
-CHECKS = {"C01": c01, "C02": c02, "C05": c05, "C06": c06, "C07": c07, "C03": c03, "C04": c04, "C11": c11, "C12": c12, "C19": c19, "C18": c18, "C10": c10, "C08": c08, "C09": c09}
+CHECKS = {"C01": c01, "C02": c02, "C05": c05, "C06": c06, "C07": c07, "C03": c03, "C04": c04, "C11": c11, "C12": c12, "C19": c19, "C18": c18, "C10": c10, "C08": c08, "C09": c09, "C13": c13, "C15": c15}
